@@ -1392,7 +1392,17 @@ fn is_compatible(a_id: usize, b_id: usize, program: &Program) -> bool {
         (Type::Binary, Type::Binary) => true,
         (Type::Tuple(id1), Type::Tuple(id2)) => id1 == id2,
         (Type::Union(ids), _) => ids.iter().all(|&id| is_compatible(id, b_id, program)),
-        (_, Type::Union(ids)) => ids.iter().any(|&id| is_compatible(a_id, id, program)),
+        // A variant that is a plain type is compared on its own. Anything else (a partial, a
+        // recursive reference) only has a meaning inside the union, so the union as a whole goes
+        // to the full is_compatible: taken out of it, `(next: ^)` would accept any `next`.
+        (_, Type::Union(ids)) => {
+            ids.iter().any(|&id| {
+                matches!(
+                    program.lookup_type(id),
+                    Some(Type::Integer | Type::Binary | Type::Tuple(_))
+                ) && is_compatible(a_id, id, program)
+            }) || quiver_core::types::is_compatible(a_id, b_id, program)
+        }
         // For partial compatibility, use the full is_compatible from types module
         _ => quiver_core::types::is_compatible(a_id, b_id, program),
     }
